@@ -1,4 +1,4 @@
 SPECIFICATION GenSpec
 CONSTANTS InitCap <- EnvInitCap  MaxCap <- EnvMaxCap  Gap <- EnvGap
-  Ids = {1, 2}  MaxPub = 14  W = {1, 2, 3, 4}  Tails = {1, 2, 3, 7}
+  Ids = {1, 2}  MaxPub = 14  W = {1, 2, 3, 4}  Tails = {1, 2, 3, 7}  BBs = {FALSE, TRUE}
 CHECK_DEADLOCK FALSE
